@@ -1126,6 +1126,9 @@ class FuncVerifier(object):
             if callee is not None:
                 return self.call_contract('%s.__neg__' % mcls, [v], n, st, mfile, callee=callee)
             return self.inline_call(mfile, mcls, mdef, [v], {}, st, n)
+        if isinstance(n.op, ast.Invert):
+            b_ = self.bool_array(v, st, n)
+            return st.alloc(AV(self.lib.theory.decls['Not1'](b_.term), b_.shape, 'bool'))
         if isinstance(n.op, ast.USub):
             if isinstance(v, PyConst):
                 return PyConst(-v.value)
@@ -1334,9 +1337,36 @@ class FuncVerifier(object):
             return Tag('lmethod', v, n.attr)
         raise OutOfFragment('attribute .%s of %r' % (n.attr, type(v).__name__), n)
 
+    def ex_Slice(self, n, st):
+        # a slice object as a VALUE (argument of __getitem__): lower / upper as terms, no step
+        if n.step is not None:
+            raise OutOfFragment('slice with a step', n)
+        return Tag('slice', None if n.lower is None else as_num(self.pev(n.lower, st)), None if n.upper is None else as_num(self.pev(n.upper, st)))
+
     def ex_Subscript(self, n, st):
         v = self.pev(n.value, st)
         sl = n.slice
+        if isinstance(v, Ref) and isinstance(st.heap.get(v.loc), Obj):
+            # obj[item]: dispatch to __getitem__
+            o = st.heap[v.loc]
+            m = self.find_method(o.cls, '__getitem__')
+            if m is None:
+                raise OutOfFragment('%s has no __getitem__' % o.cls, n)
+            item = self.pev(sl, st)
+            return self.inline_call(m[0], m[1], m[2], [v, item], {}, st, n)
+        if isinstance(sl, ast.Name) and isinstance(st.env.get(sl.id), Tag) and st.env[sl.id].kind == 'slice' and isinstance(v, (Ref, View)):
+            # a[item] with item bound to a slice object: rows lo..hi as the spec term RowSlice (2-D) / a fresh copy (1-D)
+            t = st.env[sl.id]
+            av = self.deref(v, st)
+            lo = t[1] if t[1] is not None else z3.IntVal(0)
+            hi = t[2] if t[2] is not None else av.shape[0]
+            self.oblige(st, self.site(n, 'bounds'), z3.And(0 <= lo, lo <= hi, hi <= av.shape[0]), n)
+            if av.ndim == 2:
+                return st.alloc(AV(self.lib.theory.decls['RowSlice'](av.term, lo, hi), (hi - lo, av.shape[1]), av.elem))
+            res = fresh('slice', av.term.sort())
+            k_ = fresh('k', I)
+            st.pc.append(z3.ForAll([k_], z3.Select(res, k_) == z3.Select(av.term, k_ + lo), patterns=[z3.Select(res, k_)]))
+            return st.alloc(AV(res, (hi - lo,) + tuple(av.shape[1:]), av.elem))
         if isinstance(v, tuple):
             k = self.pev(sl, st)
             ks = z3.simplify(as_num(k))
@@ -1362,6 +1392,8 @@ class FuncVerifier(object):
             return st.alloc(AV(res, (hi - lo,) + tuple(av.shape[1:]), av.elem))
         if isinstance(v, (Ref, View)) and self.mask_subscript(sl, st) is not None:
             return self.mask_gather(self.deref(v, st), self.mask_subscript(sl, st), st, n)
+        if isinstance(v, Ref) and isinstance(st.heap.get(v.loc), AV) and self.row_mask_subscript(sl, st) is not None:
+            return self.row_gather(self.deref(v, st), self.row_mask_subscript(sl, st), st, n)
         if isinstance(v, (Ref, View)) and isinstance(sl, ast.Tuple) and any(isinstance(e, ast.Slice) for e in sl.elts):
             return self.read_region(self.deref(v, st), sl, st, n)
         if isinstance(v, (Ref, View)):
@@ -1391,16 +1423,62 @@ class FuncVerifier(object):
         raise OutOfFragment('subscript of %s' % type(v).__name__, n)
 
     # ------------------------------------------------------------------ boolean-mask column indexing  a[:, m]
+    def bool_array(self, v, st, node):
+        """a 1-D boolean array value: a bool array as it is, or the comparison  a != 0  of a 1-D integer array (spec term Nz(a))"""
+        if isinstance(v, ArrCmp):
+            a, b = v.a, v.b
+            if isinstance(v.op, ast.NotEq) and isinstance(a, (Ref, View, AV)) and not isinstance(b, (Ref, View, AV)):
+                bz = z3.simplify(as_num(b))
+                av = self.deref(a, st)
+                if z3.is_int_value(bz) and bz.as_long() == 0 and av.ndim == 1 and av.elem in ('int', 'bool'):
+                    return AV(self.lib.theory.decls['Nz'](av.term), av.shape, 'bool')
+            raise OutOfFragment('elementwise comparison other than  <1-D int array> != 0', node)
+        if isinstance(v, (Ref, View, AV)):
+            av = self.deref(v, st)
+            if av.ndim == 1 and av.elem == 'bool':
+                return av
+        raise OutOfFragment('expected a 1-D boolean array', node)
+
     def mask_subscript(self, sl, st):
-        """the boolean mask array of a subscript  [:, m]  (None if the subscript is not of that form)"""
+        """the boolean mask array of a subscript  [:, m]  (None if the subscript is not of that form); m: a name bound to a boolean
+        array, or ~name"""
         if not (isinstance(sl, ast.Tuple) and len(sl.elts) == 2 and isinstance(sl.elts[0], ast.Slice)
-                and sl.elts[0].lower is None and sl.elts[0].upper is None and sl.elts[0].step is None
-                and isinstance(sl.elts[1], ast.Name)):
+                and sl.elts[0].lower is None and sl.elts[0].upper is None and sl.elts[0].step is None):
             return None
-        v = st.env.get(sl.elts[1].id)
+        e = sl.elts[1]
+        inv = False
+        if isinstance(e, ast.UnaryOp) and isinstance(e.op, ast.Invert):
+            e, inv = e.operand, True
+        if not isinstance(e, ast.Name):
+            return None
+        v = st.env.get(e.id)
+        if isinstance(v, Ref) and isinstance(st.heap.get(v.loc), AV) and st.heap[v.loc].elem == 'bool' and st.heap[v.loc].ndim == 1:
+            av = st.heap[v.loc]
+            if inv:
+                return AV(self.lib.theory.decls['Not1'](av.term), av.shape, 'bool')
+            return av
+        return None
+
+    def row_mask_subscript(self, sl, st):
+        """the boolean ROW mask of a subscript  a[b]  with b a name bound to a 1-D boolean array / comparison"""
+        if not isinstance(sl, ast.Name):
+            return None
+        v = st.env.get(sl.id)
+        if isinstance(v, ArrCmp):
+            try:
+                return self.bool_array(v, st, sl)
+            except OutOfFragment:
+                return None
         if isinstance(v, Ref) and isinstance(st.heap.get(v.loc), AV) and st.heap[v.loc].elem == 'bool' and st.heap[v.loc].ndim == 1:
             return st.heap[v.loc]
         return None
+
+    def row_gather(self, av, m, st, node):
+        if av.ndim != 2:
+            raise OutOfFragment('boolean row indexing of a non-2-D array', node)
+        self.oblige(st, self.site(node, 'shape'), m.shape[0] == av.shape[0], node)
+        idx, cnt, pos = self.mask_facts(m, st)
+        return st.alloc(AV(self.lib.theory.decls['Rows'](av.term, m.term, m.shape[0]), (cnt, av.shape[1]), av.elem))
 
     def mask_facts(self, m, st):
         """numpy semantics of boolean indexing for this mask term: the assumed lemma `mask_index` instantiated"""
@@ -1420,11 +1498,7 @@ class FuncVerifier(object):
         idx, cnt, pos = self.mask_facts(m, st)
         # every row of the result IS the spec term Compress(row, m, n) (so that spec functions of the gathered rows and of
         # Compress(...) are the same terms); the pointwise meaning comes from the definition of Compress
-        res = fresh_array('gather', 2, av.elem, shape=(av.shape[0], cnt))
-        r_ = fresh('r', I)
-        lhs = z3.Select(res.term, r_)
-        st.pc.append(z3.ForAll([r_], lhs == self.lib.theory.decls['Compress'](z3.Select(av.term, r_), m.term, m.shape[0]), patterns=[lhs]))
-        return st.alloc(res)
+        return st.alloc(AV(self.lib.theory.decls['Cols'](av.term, m.term, m.shape[0]), (av.shape[0], cnt), av.elem))
 
     def mask_scatter(self, base, av, m, val, st, node):
         if av.ndim != 2 or not isinstance(val, (Ref, View, AV)):
@@ -1779,11 +1853,20 @@ class FuncVerifier(object):
                 st.pc.append(z3.And(0 <= w_, w_ < av.shape[0], z3.Select(av.term, w_) == mx))
                 return mx
         if name == 'isinstance' and len(n.args) == 2:
-            v = self.pev(n.args[0], st)
             targets = n.args[1].elts if isinstance(n.args[1], ast.Tuple) else [n.args[1]]
             names = []
             for t in targets:
                 names.append(ast.unparse(t))
+            if isinstance(n.args[0], ast.Subscript) and not isinstance(n.args[0].slice, (ast.Slice, ast.Tuple)):
+                # isinstance(a[k], numpy.bool_ / int ...) of an array element: decided by the element kind of the array
+                base = self.pev(n.args[0].value, st)
+                if isinstance(base, (Ref, View)) and not (isinstance(base, Ref) and not isinstance(st.heap[base.loc], AV)):
+                    av = self.deref(base, st)
+                    if av.ndim == 1:
+                        self.pev(n.args[0], st)          # bounds obligation of the element read
+                        kinds = {'bool': ('numpy.bool_', 'np.bool_', 'bool'), 'int': ('int', 'numpy.integer', 'numpy.int_', 'numpy.int64')}.get(av.elem, ())
+                        return z3.BoolVal(any(t in kinds for t in names))
+            v = self.pev(n.args[0], st)
             if isinstance(v, Ref) and isinstance(st.heap[v.loc], Obj):
                 cls = st.heap[v.loc].cls
                 return z3.BoolVal(any(self.is_subclass(cls, t) for t in names))
@@ -1797,6 +1880,8 @@ class FuncVerifier(object):
                 return z3.BoolVal(any(t in ('int', 'numpy.integer') for t in names))
             if v is None or isinstance(v, (str, dict)):
                 return z3.BoolVal(type(v).__name__ in names)
+            if isinstance(v, Tag) and v.kind == 'slice':
+                return z3.BoolVal('slice' in names)
             raise OutOfFragment('isinstance of this value', n)
         if name == 'type' and len(n.args) == 1:
             v = self.pev(n.args[0], st)
@@ -1862,6 +1947,22 @@ class FuncVerifier(object):
             else:
                 raise OutOfFragment('dtype %s' % d, n)
         short = name.split('.', 1)[1] if '.' in name else name
+        if short == 'logical_and' and len(n.args) == 2 and not n.keywords:
+            a_ = self.bool_array(self.pev(n.args[0], st), st, n)
+            b_ = self.bool_array(self.pev(n.args[1], st), st, n)
+            self.oblige(st, self.site(n, 'shape'), a_.shape[0] == b_.shape[0], n)
+            return st.alloc(AV(self.lib.theory.decls['And1'](a_.term, b_.term), a_.shape, 'bool'))
+        if short == 'sum' and not n.keywords and len(n.args) in (1, 2):
+            av = self.deref(self.pev(n.args[0], st), st)
+            if av.elem not in ('int', 'bool'):
+                raise OutOfFragment('numpy.sum of a non-integer array', n)
+            if len(n.args) == 1 and av.ndim == 1:
+                return self.lib.theory.decls['RowSum'](av.term, av.shape[0])
+            if len(n.args) == 2 and av.ndim == 2:
+                ax = z3.simplify(as_num(self.pev(n.args[1], st)))
+                if z3.is_int_value(ax) and ax.as_long() in (-1, 1):
+                    return st.alloc(AV(self.lib.theory.decls['RowSums'](av.term, av.shape[1]), (av.shape[0],), 'int'))
+            raise OutOfFragment('numpy.sum form', n)
         if short == 'repeat':
             # numpy.repeat(m, 2) of a 1-D array: the canonical spec term Repeat2(m)
             if len(n.args) != 2 or n.keywords or not (isinstance(n.args[1], ast.Constant) and n.args[1].value == 2):
@@ -2113,7 +2214,7 @@ class FuncVerifier(object):
                 raise ContractError('result_term on a non-array result of %s' % fname)
             rt = spre.ev(callee.result_term)
             old_av = st.heap[result.loc]
-            st.heap[result.loc] = AV(rt.term, old_av.shape, old_av.elem)
+            st.heap[result.loc] = AV(rt.term if isinstance(rt, AV) else rt, old_av.shape, old_av.elem)
         env_post = dict(env)
         env_post['result'] = result
         spost = SpecEval(self.lib.theory, env_post, st.heap, env, heap_pre, self.lib.preds)
